@@ -3537,6 +3537,10 @@ class QuicConnection:
                 else 0
             )
         )
+        if builder.remaining_flight_space < frame_overhead:
+            # Not even a frame without data fits: do not take anything out of
+            # the stream, otherwise a FIN-only frame would be lost.
+            return 0
         previous_send_highest = stream.sender.highest_offset
         frame = stream.sender.get_frame(
             builder.remaining_flight_space - frame_overhead, max_offset
